@@ -14,6 +14,8 @@ pub enum Policy {
     Same,
     /// `renew()` yields a different identity that loses the conflict
     Losing,
+    /// `renew()` yields generation (g + 1) mod 4: wins until it wraps around, then loses
+    Cycle,
 }
 
 impl Policy {
@@ -23,6 +25,7 @@ impl Policy {
             Policy::Next => "next",
             Policy::Same => "same",
             Policy::Losing => "losing",
+            Policy::Cycle => "cycle",
         }
     }
     pub fn parse(s: &str) -> Policy {
@@ -30,6 +33,7 @@ impl Policy {
             "next" => Policy::Next,
             "same" => Policy::Same,
             "losing" => Policy::Losing,
+            "cycle" => Policy::Cycle,
             _ => Policy::None,
         }
     }
@@ -84,6 +88,7 @@ impl foca::Identity for Id {
             Policy::Next => self.gen.checked_add(1).map(|g| Id { gen: g, ..*self }),
             Policy::Same => Some(*self),
             Policy::Losing => Some(Id { gen: self.gen.saturating_sub(1), ..*self }),
+            Policy::Cycle => Some(Id { gen: (self.gen + 1) % 4, ..*self }),
         }
     }
 
